@@ -222,6 +222,8 @@ def rule_allocate(rep):
         raise ir.AnchorMissing("trait Resampler")
     for name, getter in (("input_buffer_allocate", "input_frames_max"), ("output_buffer_allocate", "output_frames_max")):
         fn = [f for f in tr["fns"] if f["name"] == name and f.get("body")]
+        for f in fn:
+            facts.touch("trait Resampler::%s" % name, f)
         if not fn:
             rep.ob(R, name, False, "default method not found", "src/lib.rs")
             continue
